@@ -4,19 +4,26 @@
 From RK Require Import Base BaseFacts Iri3986 JsonLd.
 
 Definition iri_ok (i : bytes) : bool :=
-  negb (is_keyword i) && negb (at_form i) && negb (is_bnode_id i) && has_scheme i &&
+  negb (is_keyword i) && negb (at_form i) && negb (is_bnode_id i) && has_scheme i && iri_chars_ok i &&
   match split_colon i with Some (p, _) => negb (beq p (s2b "_")) | None => false end.
+
+Lemma iri_ok_parts i : iri_ok i = true ->
+  is_keyword i = false /\ at_form i = false /\ is_bnode_id i = false /\ has_scheme i = true /\ iri_chars_ok i = true /\
+  match split_colon i with Some (p, _) => beq p (s2b "_") = false | None => False end.
+Proof.
+  unfold iri_ok. intros H.
+  apply andb_prop in H as [H Hs]. apply andb_prop in H as [H Hc]. apply andb_prop in H as [H Hsch]. apply andb_prop in H as [H Hb].
+  apply andb_prop in H as [Hk Ha]. apply negb_true_iff in Hk, Ha, Hb.
+  repeat split; try assumption. destruct (split_colon i) as [[p sfx]|]; [apply negb_true_iff in Hs; exact Hs|discriminate].
+Qed.
 
 Lemma expand_plain base i vocab docrel :
   iri_ok i = true -> expand_iri (ACtx base None None []) i vocab docrel = Some (Some i).
 Proof.
-  unfold iri_ok. intros H.
-  apply andb_prop in H as [H Hs]. apply andb_prop in H as [H Hsch]. apply andb_prop in H as [H Hb].
-  apply andb_prop in H as [Hk Ha].
-  apply negb_true_iff in Hk, Ha, Hb.
+  intros H. destruct (iri_ok_parts i H) as (Hk & Ha & Hb & Hsch & Hc & Hs).
   unfold expand_iri, expand_with. rewrite Hk, Ha. cbn [mem existsb andb a_terms lookup].
-  destruct (split_colon i) as [[p sfx]|] eqn:E; [|discriminate].
-  apply negb_true_iff in Hs. rewrite Hs. cbn [orb].
+  destruct (split_colon i) as [[p sfx]|] eqn:E; [|contradiction].
+  rewrite Hs. cbn [orb].
   destruct (is_prefix (s2b "//") sfx); [reflexivity|].
   rewrite Hsch. reflexivity.
 Qed.
@@ -49,7 +56,7 @@ Definition node_ok (t : jterm) : bool :=
 Definition obj_ok (o : jterm) : bool :=
   match o with
   | TL _ dt [] => iri_ok dt
-  | TL _ dt (_ :: _) => beq dt (rdf "langString")
+  | TL _ dt ((_ :: _) as lang) => beq dt (rdf "langString") && lang_chars_ok lang
   | t => node_ok t
   end.
 Definition quad_ok (q : jquad) : bool :=
@@ -65,8 +72,8 @@ Lemma expand_id_of t vocab docrel : node_ok t = true ->
 Proof.
   destruct t as [i|[|] l|]; cbn [node_ok id_of]; intros H; try discriminate.
   - exists i. unfold a0. rewrite expand_plain by exact H. split; [reflexivity|].
-    unfold iri_ok in H. apply andb_prop in H as [H _]. apply andb_prop in H as [H Hsch]. apply andb_prop in H as [_ Hb].
-    apply negb_true_iff in Hb. unfold classify. rewrite Hb, Hsch. reflexivity.
+    destruct (iri_ok_parts i H) as (_ & _ & Hb & Hsch & Hc & _).
+    unfold classify. rewrite Hb, Hsch, Hc. reflexivity.
   - exists (95%N :: 58%N :: l). split; reflexivity.
 Qed.
 
@@ -114,8 +121,8 @@ Proof.
     change (ek_lookup "@type" ek) with (Some (JStr dt)). change (ek_lookup "@language" ek) with (@None json).
     change (ek_lookup "@value" ek) with (Some (JStr lex)).
     unfold a0. rewrite expand_plain by exact H.
-    unfold iri_ok in H. apply andb_prop in H as [H _]. apply andb_prop in H as [H Hsch]. apply andb_prop in H as [_ Hb].
-    unfold is_abs. rewrite Hsch, Hb. reflexivity.
+    destruct (iri_ok_parts dt H) as (_ & _ & Hb & Hsch & Hc & _).
+    unfold is_abs. rewrite Hsch, Hb, Hc. reflexivity.
   - unfold value_step.
     change (lookup (s2b "@context") [(s2b "@value", JStr lex); (s2b "@language", JStr (c :: lang))]) with (@None json).
     cbn [expand_keys]. rewrite (kw_exp "@value"%string), (kw_exp "@language"%string) by reflexivity.
@@ -127,7 +134,7 @@ Proof.
     cbn [negb Nat.eqb Nat.ltb Nat.leb orb].
     change (ek_lookup "@type" ek) with (@None json). change (ek_lookup "@language" ek) with (Some (JStr (c :: lang))).
     change (ek_lookup "@value" ek) with (Some (JStr lex)).
-    cbn [lang_lit].
+    apply andb_prop in H as [H Hl]. rewrite Hl. cbn [negb lang_lit].
     apply beq_true_iff in H. subst dt. reflexivity.
 Qed.
 
@@ -141,7 +148,7 @@ Proof.
 Qed.
 
 Lemma value_S n : value base (S n) = value_step base (value base n) (node base n). Proof. reflexivity. Qed.
-Lemma node_S n : node base (S n) = node_step (value base n). Proof. reflexivity. Qed.
+Lemma node_S n : node base (S n) = node_step base (value base n). Proof. reflexivity. Qed.
 
 Lemma not_kw p (kw : String.string) : is_keyword p = false -> is_keyword (s2b kw) = true -> beq p (s2b kw) = false.
 Proof.
@@ -150,11 +157,13 @@ Proof.
 Qed.
 
 Lemma iri_ok_kw p : iri_ok p = true -> is_keyword p = false.
-Proof. unfold iri_ok. intros H. repeat (apply andb_prop in H as [H _]). apply negb_true_iff in H. exact H. Qed.
+Proof. intros H. apply (iri_ok_parts p H). Qed.
 Lemma iri_ok_bn p : iri_ok p = true -> is_bnode_id p = false.
-Proof. unfold iri_ok. intros H. apply andb_prop in H as [H _]. apply andb_prop in H as [H _]. apply andb_prop in H as [_ H]. apply negb_true_iff in H. exact H. Qed.
+Proof. intros H. apply (iri_ok_parts p H). Qed.
 Lemma iri_ok_scheme p : iri_ok p = true -> has_scheme p = true.
-Proof. unfold iri_ok. intros H. apply andb_prop in H as [H _]. apply andb_prop in H as [_ H]. exact H. Qed.
+Proof. intros H. apply (iri_ok_parts p H). Qed.
+Lemma iri_ok_chars p : iri_ok p = true -> iri_chars_ok p = true.
+Proof. intros H. apply (iri_ok_parts p H). Qed.
 
 (* the expanded entries of { "@id": i, p: v } *)
 Definition ek2 (i : bytes) (p : bytes) (v : json) : list (option bytes * bytes * json) :=
@@ -165,6 +174,24 @@ Lemma ek2_count p i v (kw : String.string) : is_keyword p = false -> is_keyword 
 Proof.
   intros Hp Hk. unfold ek_count, ek2. cbn [filter fst snd].
   rewrite (not_kw p kw Hp Hk). destruct (beq (s2b "@id") (s2b kw)); reflexivity.
+Qed.
+
+Lemma ff_node_of s p o : iri_ok p = true -> free_floating base a0 (node_of s p o) = Some false.
+Proof.
+  intros Hp. pose proof (iri_ok_kw p Hp) as Hk. unfold free_floating, node_of.
+  cbn [lookup]. change (beq (s2b "@id") (s2b "@context")) with false. rewrite (not_kw p "@context"%string Hk) by reflexivity.
+  cbn [expand_keys]. rewrite (kw_exp "@id"%string) by reflexivity.
+  unfold a0 at 1. rewrite (expand_plain base p true false Hp).
+  fold (ek2 (id_of s) p (JArr [val_of o])).
+  rewrite !(ek2_count p _ _ _ Hk) by reflexivity. reflexivity.
+Qed.
+
+Lemma ff_quad_obj q : quad_ok q = true -> free_floating base a0 (quad_obj q) = Some false.
+Proof.
+  destruct q as [[[s p] o] [gn|]]; cbn [quad_ok quad_obj]; intros H.
+  - unfold free_floating. cbn [lookup]. change (beq (s2b "@id") (s2b "@context")) with false. change (beq (s2b "@graph") (s2b "@context")) with false.
+    cbn [expand_keys]. rewrite (kw_exp "@id"%string), (kw_exp "@graph"%string) by reflexivity. reflexivity.
+  - apply andb_prop in H as [H _]. apply andb_prop in H as [H _]. apply andb_prop in H as [_ Hp]. apply ff_node_of. exact Hp.
 Qed.
 
 Lemma node_of_eval f g s p o k : node_ok s = true -> iri_ok p = true -> obj_ok o = true ->
@@ -191,7 +218,7 @@ Proof.
   rewrite E1, E2. unfold ek2. cbn [fold_left].
   change (beq (s2b "@id") (s2b "@id")) with true. cbn [orb].
   rewrite (not_kw p "@id"%string Hk), (not_kw p "@context"%string Hk), (not_kw p "@type"%string Hk), (not_kw p "@graph"%string Hk) by reflexivity.
-  cbn [orb]. rewrite Hk, (iri_ok_bn p Hp), (iri_ok_scheme p Hp). cbn [negb a_terms a0 lookup].
+  cbn [orb]. rewrite Hk, (iri_ok_bn p Hp), (iri_ok_scheme p Hp), (iri_ok_chars p Hp). cbn [negb a_terms a0 lookup].
   rewrite value_S. unfold value_step at 1.
   cbn [fold_left]. rewrite value_S.
   rewrite (value_val_of _ f g o k Ho).
@@ -220,7 +247,7 @@ Proof.
     change (beq (s2b "@id") (s2b "@id")) with true. cbn [orb].
     change (beq (s2b "@graph") (s2b "@id")) with false. change (beq (s2b "@graph") (s2b "@context")) with false.
     change (beq (s2b "@graph") (s2b "@type")) with false. change (beq (s2b "@graph") (s2b "@graph")) with true.
-    cbn [orb as_list fold_left].
+    cbn [orb as_list fold_left]. unfold node_of at 1. fold (node_of s p o). rewrite (ff_node_of s p o Hp).
     rewrite (node_of_eval f (Some gn) s p o k Hs Hp Ho).
     reflexivity.
   - apply andb_prop in H as [H _]. apply andb_prop in H as [H Ho]. apply andb_prop in H as [Hs Hp].
@@ -231,9 +258,14 @@ Lemma fold_quads f qs : forallb quad_ok qs = true -> forall acc k,
   fold_left (fun (st : option (list jquad * nat)) (v : json) =>
                match st, v with
                | Some (qs, k), JObj _ =>
-                   match value base (S (S (S (S (S (S (S f))))))) a0 None None v k with
-                   | Some (_, qs', k') => Some (qs ++ qs', k')
+                   match free_floating base a0 v with
                    | None => None
+                   | Some true => Some (qs, k)
+                   | Some false =>
+                       match value base (S (S (S (S (S (S (S f))))))) a0 None None v k with
+                       | Some (_, qs', k') => Some (qs ++ qs', k')
+                       | None => None
+                       end
                    end
                | _, _ => None
                end) (map quad_obj qs) (Some (acc, k)) = Some (acc ++ qs, k).
@@ -245,7 +277,8 @@ Proof.
     destruct (quad_obj_eval f q k Hq) as (os & E).
     assert (Hobj : exists m, quad_obj q = JObj m).
     { destruct q as [[[s p] o] [gn|]]; cbn [quad_obj]; unfold node_of; eauto. }
-    destruct Hobj as (m & Em). rewrite Em in *. rewrite E.
+    pose proof (ff_quad_obj q Hq) as Hff.
+    destruct Hobj as (m & Em). rewrite Em in *. rewrite Hff, E.
     rewrite (IH H). rewrite <- app_assoc. reflexivity.
 Qed.
 End RT.
